@@ -1,4 +1,5 @@
 From V Require Import model.Base model.Conc model.Events model.SeqLock model.Blackboard.
+From V Require model.SeqLockRA.
 Require Extraction.
 Require Import ExtrOcamlBasic.
 Extraction Language OCaml.
@@ -11,5 +12,12 @@ Definition sl_loan (v : SeqLock.value) := SeqLock.OLoan v.
 Definition sl_discard (v : SeqLock.value) := SeqLock.OLoanDiscard v.
 Definition sl_final (g : SeqLock.gst) := (SeqLock.wc g, SeqLock.vhash (SeqLock.current g)).
 Definition sl_in_copy (l : SeqLock.lst) := SeqLock.in_copy (SeqLock.at_pc l).
-Extraction "../ocaml/c12/model.ml" sl_step1 sl_fstep1 sl_init sl_ops sl_store sl_loan sl_discard sl_final sl_in_copy N.of_nat N.to_nat
+Definition slra_step1 (Q : SeqLockRA.sords) := Conc.step1 (SeqLockRA.sstep Q).
+Definition slra_init := SeqLockRA.sinit.
+Definition slra_mk_ords := SeqLockRA.Build_sords.
+Definition slra_set_oracle (g : SeqLockRA.sgst) (o : list N) : SeqLockRA.sgst :=
+  SeqLockRA.set_sg g (SeqLockRA.sg g) o (SeqLockRA.srace_used g) (SeqLockRA.svalidated g).
+Definition slra_race_used := SeqLockRA.srace_used.
+Definition slra_oracle := SeqLockRA.soracle.
+Extraction "../ocaml/c12/model.ml" slra_step1 slra_init slra_mk_ords slra_set_oracle slra_race_used slra_oracle sl_step1 sl_fstep1 sl_init sl_ops sl_store sl_loan sl_discard sl_final sl_in_copy N.of_nat N.to_nat
   bb_new bb_step bb_sp_new bb_sp_step bb_sp_digest_ok bb_nwriters bb_nreaders.
